@@ -92,6 +92,35 @@ pub struct Gen {
     early_selectors: Vec<u32>,
 }
 
+/// 32-bit patterns that are special for some reading of the word: decimal fractions as f32, halves widened to
+/// f32, small and negative integers, the extremes, NaNs and infinities, sub-normals.
+pub fn interesting_bits32(rng: &mut Rng) -> u32 {
+    match rng.below(8) {
+        0 => (*rng.pick(&[0.1f32, 0.2, 0.3, 1.5, 2.5, 1e-3, 3.14159, 1e10, 16777217.0, 1.0e-40])).to_bits(),
+        1 => (rng.below(2048) as u32) << 13 | ((rng.below(256) as u32) << 23),
+        2 => rng.below(300) as u32,
+        3 => (-(rng.below(300) as i32)) as u32,
+        4 => *rng.pick(&[0u32, 1, 0x7fff_ffff, 0x8000_0000, 0xffff_ffff, 0x7f80_0000, 0xff80_0000, 0x7fc0_0000, 0x7f80_0001, 0x0000_0001, 0x0080_0000, 0x8000_0001, 0x00ff, 0xff00, 0xffff, 0x1_0000]),
+        5 => rng.word() & 0xffff_e000,
+        6 => rng.word() & 0xffff,
+        _ => (rng.word() as f32 / 1000.0).to_bits(),
+    }
+}
+/// 64-bit patterns: doubles that are exactly representable as f32 (and are not "short"), decimal fractions,
+/// values whose high word is all zeros / all ones (32-bit values widened), extremes, NaNs.
+pub fn interesting_bits64(rng: &mut Rng) -> u64 {
+    match rng.below(8) {
+        0 => (f32::from_bits(interesting_bits32(rng)) as f64).to_bits(),
+        1 => (*rng.pick(&[0.1f64, 0.2, 0.3, 1.5, 1e-3, 3.141592653589793, 1e300, 9007199254740993.0, 5e-324])).to_bits(),
+        2 => rng.word() as u64,
+        3 => (rng.word() as i32 as i64) as u64,
+        4 => *rng.pick(&[0u64, 1, u64::MAX, i64::MAX as u64, 1 << 63, 0x7ff0_0000_0000_0000, 0xfff0_0000_0000_0000, 0x7ff8_0000_0000_0000, 0xffff_ffff, 0x1_0000_0000, 0x8000_0000, 0xffff_ffff_0000_0000]),
+        5 => ((f32::from_bits(rng.word()) as f64) * 1.0).to_bits(),
+        6 => (rng.word() as u64) << 32,
+        _ => ((rng.word() as f64) / 1000.0).to_bits(),
+    }
+}
+
 pub fn interesting_ids() -> &'static Vec<u32> {
     static V: std::sync::OnceLock<Vec<u32>> = std::sync::OnceLock::new();
     V.get_or_init(|| {
@@ -255,11 +284,23 @@ impl Gen {
         match self.types.width(type_id) {
             Width::One => Some(AVal::W(match self.lit {
                 LitStyle::Marker => self.fresh(),
-                LitStyle::Random => rng.word(),
+                LitStyle::Random => {
+                    if rng.chance(1, 2) {
+                        rng.word()
+                    } else {
+                        interesting_bits32(rng)
+                    }
+                }
             })),
             Width::Two => Some(AVal::W64(match self.lit {
                 LitStyle::Marker => ((self.fresh() as u64) << 32) | self.fresh() as u64,
-                LitStyle::Random => ((rng.word() as u64) << 32) | rng.word() as u64,
+                LitStyle::Random => {
+                    if rng.chance(1, 2) {
+                        ((rng.word() as u64) << 32) | rng.word() as u64
+                    } else {
+                        interesting_bits64(rng)
+                    }
+                }
             })),
             Width::Unsupported | Width::Ambiguous => None,
         }
